@@ -896,5 +896,116 @@ def rule_short_fields_fail(ctx):
     r(ctx)
 
 
+
+def rule_error_codes_are_members(ctx):
+    """C12.o  An error code is a member of ErrorCode wherever one is produced.  The receive loop formats the exception
+    it caught inside its `except` clause (RSocketProtocolError.__str__ reads error_code.name and .value), the logger
+    and exception_to_error_frame read `.value`: a bare integer there raises AttributeError outside the per-frame
+    containment - the receiver task ends without the close sequence and the connection is wedged.  The decoder is the
+    place where a peer chooses the number: a code outside the enumeration has to fail *inside* the decoder, where the
+    failure becomes the invalid-frame marker.  Every store to an attribute named error_code, and the error-code
+    argument of every construction of a library protocol-error class, is ErrorCode(<x>), ErrorCode.<NAME>, another
+    object's .error_code, a parameter annotated ErrorCode (or defaulted to a member), or a call of a library function
+    all of whose returns are of these forms."""
+    rep = ctx.report
+    repo = ctx.repo
+    from ..astutil import returned_exprs
+
+    def member(f, e, depth=0):
+        if isinstance(e, ast.Attribute):
+            if e.attr == 'error_code':
+                return True
+            return isinstance(e.value, ast.Name) and e.value.id == 'ErrorCode'
+        if isinstance(e, ast.Call):
+            if isinstance(e.func, ast.Name) and e.func.id == 'ErrorCode':
+                return True
+            if isinstance(e.func, ast.Attribute) and isinstance(e.func.value, ast.Name) and \
+                    e.func.value.id == 'ErrorCode' and e.func.attr != 'value':
+                return False  # no classmethods on the enumeration are known to return members
+            if depth < 2 and isinstance(e.func, ast.Name):
+                gs = repo.resolve_name(f.module, e.func.id)
+                if isinstance(gs, list) and gs:
+                    ok = True
+                    for g in gs:
+                        rets = list(returned_exprs(g.node))
+                        ok = ok and bool(rets) and all(member(g, r, depth + 1) for r in rets)
+                    return ok
+            return False
+        if isinstance(e, ast.IfExp):
+            return member(f, e.body, depth) and member(f, e.orelse, depth)
+        if isinstance(e, ast.Name):
+            a = f.node.args
+            allp = a.posonlyargs + a.args + a.kwonlyargs
+            for i, x in enumerate(allp):
+                if x.arg == e.id:
+                    if x.annotation is not None and 'ErrorCode' in ast.unparse(x.annotation) and \
+                            'int' not in ast.unparse(x.annotation):
+                        return True
+                    pos = a.posonlyargs + a.args
+                    if x in pos:
+                        k = pos.index(x) - (len(pos) - len(a.defaults))
+                        if k >= 0 and member(f, a.defaults[k], depth + 1):
+                            return True
+                    return False
+            vals = []
+            for n in walk_local(f.node):
+                if not isinstance(n, ast.Assign):
+                    continue
+                for t in n.targets:
+                    if isinstance(t, ast.Name) and t.id == e.id:
+                        vals.append(n.value)
+                    elif isinstance(t, (ast.Tuple, ast.List)):
+                        for i, x in enumerate(t.elts):
+                            if isinstance(x, ast.Name) and x.id == e.id:
+                                same = isinstance(n.value, (ast.Tuple, ast.List)) and len(n.value.elts) == len(t.elts)
+                                vals.append(n.value.elts[i] if same else ast.Constant(value=None))
+            return bool(vals) and all(member(f, v, depth + 1) for v in vals) and depth < 3
+        return False
+
+    base = repo.cls('rsocket.exceptions:RSocketProtocolError')
+    if base is None:
+        raise AnalysisError('C12.o: RSocketProtocolError vanished')
+    coded = {k.name: k for k in repo.all_classes() if k is base or k.is_subclass_of(base)}
+    n_store = n_ctor = 0
+    bad = []
+    for f in repo.all_functions():
+        if not f.module.name.startswith('rsocket.') or f.module.name.startswith('rsocket.cli'):
+            continue
+        for n in walk_local(f.node):
+            if isinstance(n, ast.Assign):
+                for t in n.targets:
+                    if isinstance(t, ast.Attribute) and t.attr == 'error_code':
+                        n_store += 1
+                        if not member(f, n.value):
+                            bad.append((f, n, 'error_code = %s' % ast.unparse(n.value)))
+            elif isinstance(n, ast.Call) and isinstance(n.func, ast.Name) and n.func.id in coded:
+                k = coded[n.func.id]
+                init = k.lookup('__init__')
+                if init is None or 'error_code' not in init.params():
+                    continue
+                idx = [p for p in init.params() if p != 'self'].index('error_code')
+                arg = None
+                for kw in n.keywords:
+                    if kw.arg == 'error_code':
+                        arg = kw.value
+                if arg is None and idx < len(n.args):
+                    arg = n.args[idx]
+                if arg is None:
+                    continue
+                n_ctor += 1
+                if not member(f, arg):
+                    bad.append((f, n, '%s(%s, ...)' % (n.func.id, ast.unparse(arg))))
+    rep.require('C12.o', 'stores to .error_code', n_store, 4)
+    rep.require('C12.o', 'constructions of coded exceptions', n_ctor, 5)
+    for f, n, what in bad:
+        rep.bad('C12.o', '%s / %s' % (f.qualname.split(':')[-1], what), f,
+                'line %d: not shown to be a member of ErrorCode: __str__ of the exception, the logger and '
+                'exception_to_error_frame read .name / .value of it outside the per-frame containment' % n.lineno)
+    if not bad:
+        rep.ok('C12.o', 'error codes / members of ErrorCode wherever produced', base,
+               '%d stores, %d constructions' % (n_store, n_ctor))
+
+
+
 RULES = [('C12.a', rule_a), ('C12.b', rule_b), ('C12.c', rule_c), ('C12.d', rule_d), ('C12.e', rule_e),
-         ('C12.f', rule_f), ('C14.f', rule_g), ('C12.b', rule_h), ('C13.d', rule_i), ('C12.g', rule_j), ('C12.h', rule_k), ('C12.i', rule_l), ('C12.j', rule_m), ('C12.k', rule_exception_text), ('C12.l', rule_error_conversion), ('C02.h', rule_decoder_entry), ('C12.m', rule_empty_messages), ('C04.j', rule_marker_queues), ('C12.n', rule_future_inspection), ('C04.l', rule_short_fields_fail)]
+         ('C12.f', rule_f), ('C14.f', rule_g), ('C12.b', rule_h), ('C13.d', rule_i), ('C12.g', rule_j), ('C12.h', rule_k), ('C12.i', rule_l), ('C12.j', rule_m), ('C12.k', rule_exception_text), ('C12.l', rule_error_conversion), ('C02.h', rule_decoder_entry), ('C12.m', rule_empty_messages), ('C04.j', rule_marker_queues), ('C12.n', rule_future_inspection), ('C04.l', rule_short_fields_fail), ('C12.o', rule_error_codes_are_members)]
